@@ -1423,13 +1423,14 @@ func c05FileIdentity(r *an.Run) {
 	r.Check(sameFileValue(applyArgs[len(applyArgs)-2], m.filename), short(f)+"|apply-name", m.apply.Pos(), "and under this file's name")
 	// what is printed is the tree Apply returned
 	n := 0
-	for _, c := range an.CallsTo(f, formatNode) {
-		if !m.loop.Loop.Blocks[c.Block()] {
+	for _, c := range callsToGroup(f, formatNode) {
+		site := siteIn(f, c)
+		if site == nil || !m.loop.Loop.Blocks[site.Block()] {
 			continue
 		}
 		n++
 		a := c.Common().Args
-		r.Check(an.Unwrap(a[len(a)-1]) == m.fout, short(f)+"|printed-tree", c.Pos(), "the tree that is printed is the one the patches produced for this file")
+		r.Check(actualIn(f, a[len(a)-1]) == m.fout, short(f)+"|printed-tree", c.Pos(), "the tree that is printed is the one the patches produced for this file")
 	}
 	r.Check(n == 1, short(f)+"|one-print", f.Pos(), "the rewritten tree is printed once per file (found %d format.Node calls in the loop)", n)
 	// every sink that names a file names this one
@@ -2273,6 +2274,7 @@ func oneFileSet(r *an.Run, rule string) {
 					continue
 				}
 				n++
+				fs = actualIn(f, fs) // a helper shared with the command is given the receiver's FileSet at the call
 				r.Check(strings.HasSuffix(an.PathIn(fs, f), ".fset") && an.Root(an.Unwrap(fs)) != nil && isFieldOfRecv(fs, f, g), short(g)+"|fileset|"+lastSegment(an.CalleeName(c)), c.Pos(), "%s works on the FileSet of the parsed patch (the receiver's fset), the one the compiled import replacers hold (found %s)", lastSegment(an.CalleeName(c)), an.Describe(an.Unwrap(fs)))
 			}
 		}
